@@ -105,6 +105,22 @@ def run_c14(ctx):
                 ops.append("addnv t t " + hx(nb.serialize()))
                 impl.append("ok")
                 res.count("ledger_moved_between_spends")
+            forced_mode = None
+            if step in (6, 14):
+                forced_mode = "half"            # (a spend that reaches well into the wallet's later keys, left unconfirmed)
+            if step in (7, 15) and ever_used:
+                # while earlier spends of this wallet are still unconfirmed, a new block (confirming none of them) pays the key
+                # the wallet looks at FIRST; the next spend takes everything that is left — it must step over the used outputs
+                # that now lie behind an unused one in the wallet's scan order
+                nb = tree.extend(head, txs=[], miner=order[0])
+                cs = tree.cs
+                head = cs.current_chain_hash
+                utxo = tree.utxo(head)
+                owned = {r: o for r, o in utxo.items() if o.public_key.public_key in w.keypairs}
+                ops.append("addnv t t " + hx(nb.serialize()))
+                impl.append("ok")
+                forced_mode = "exact" if step == 7 else "half"
+                res.count("first_key_paid_while_spends_are_pending")
             if step in (3, 9) or rng.random() < 0.08:
                 # the ledger reorganises between two spends: the wallet has just looked at its balance at the head; a competitor
                 # of the head arrives (the head stays), then a block on top of the competitor (the other branch takes over).
@@ -148,6 +164,8 @@ def run_c14(ctx):
                                "way_over", "tiny", "later_covers", "later_covers"])
             if step % 3 == 0:
                 mode = "later_covers"
+            if forced_mode is not None:
+                mode = forced_mode
             fee = rng.choice([0, 0, 1, 5, 1000])
             if mode == "small":
                 amount = rng.randrange(1, max(2, remaining // 10 + 1))
